@@ -196,6 +196,22 @@ Theorem C15_spec_holds : forall fx q pl r,
 Proof. exact spec_holds. Qed.
 Print Assumptions C15_spec_holds.
 
+(** sequences: every request of every sequence served by one rule instance,
+    whatever came before it, is forwarded as the statement says.  (The model is
+    stateless by construction — [serve_all] is a map; that the implementation
+    keeps no state between requests is checked by the session streams.) *)
+Theorem C15_sequence_spec_holds : forall fx r reqs n q pl,
+  fx_c08f2 fx = true -> fx_c13f3 fx = true -> fx_f1 fx = true -> fx_f4 fx = true ->
+  nth_error reqs n = Some (q, pl) ->
+  oracle_ok q = true ->
+  guard_F2 q = false -> guard_F3 q r = false -> guard_F5 r = false ->
+  fx_f6 fx = true \/ guard_F6 q r = false ->
+  fx_f7 fx = true \/ guard_F7 q = false ->
+  guard_F8 pl r = false ->
+  exists o, nth_error (serve_all fx r reqs) n = Some o /\ spec_ok q pl r o = true.
+Proof. exact sequence_spec_holds. Qed.
+Print Assumptions C15_sequence_spec_holds.
+
 (** the repaired findings (pinned behaviour and the same input after the repair) *)
 Theorem C15_F1_pinned_refuted : exists q pl r,
   guard_F1 q r = true /\ spec_ok q pl r (serve current q pl r) = false /\
